@@ -335,6 +335,31 @@ def irq_config(radio, agg):
     return n
 
 
+def irq_mask_kept(radio, agg):
+    """R10.5 (second half): the IRQ mask lives in CONFIG bits 6:4 only; interrupt_config() is the one function that may change it.  A
+    function that rewrites CONFIG on some path to switch mode by itself (write() of the lite driver when it finds the radio listening or
+    powered down) must carry those three bits over - judged on the register's bits with provenance, for RX mode, power-down and TX mode"""
+    from ..effects import old_reg
+    from . import link
+    f = radio.prog.method(radio.cls, "write")
+    n = 0
+    for low, what in ((0x03, "listening"), (0x00, "powered down"), (0x01, "powered down with PRIM_RX"), (0x02, "in TX mode")):
+        n += 1
+        st = radio.fresh({contract.DYNPD: 0x3F, contract.FEATURE: 0x05})
+        v0 = old_reg(0)
+        cfg = BitV(tuple((((low >> i) & 1) if i < 2 else b) for i, b in enumerate(v0.bits)), 0, None)
+        radio.pin(st, 0, cfg)
+        for out in radio.run(f, [link.param_buf(length=5)], st):
+            if out.kind != "return":
+                continue
+            got, want = bits8(out.state.extra["regs"].get(0)), bits8(cfg)
+            ok = got is not None and want is not None and all(term_eq(got[i], want[i]) for i in (4, 5, 6))
+            agg.add("R10.5", f, "write() leaves the IRQ mask (CONFIG bits 6:4) as interrupt_config() set it, whatever mode it finds the radio in", ok,
+                    "write() with the radio %s: CONFIG becomes %s (was %s) - events disabled with interrupt_config() assert the IRQ pin again" % (
+                        what, fmt_bits(got) if got else out.state.extra["regs"].get(0), fmt_bits(want) if want else cfg))
+    return n
+
+
 def run(ck):
     ck.explanation = (
         "Static analysis of every status/FIFO accessor of rf24.RF24: the accessor's body is abstractly interpreted with the cached STATUS "
@@ -351,6 +376,13 @@ def run(ck):
     # the lite driver offers the same accessors on the same registers: judged by the same tables (as C20 does)
     lite = Radio(ck, "rf24_lite", "RF24")
     run_for(ck, lite, agg, lite=True)
+    irq_mask_kept(radio, agg)
+    irq_mask_kept(lite, agg)
+    # "any() / read() describe the next payload's length" in static mode from the driver's cached RX_PW copies: they describe the radio only
+    # while every setter keeps the copies equal to the registers (C03's R03.3 / R03.5 obligations, re-run here)
+    from . import c03
+    c03.run_setters(radio, agg, contract.SETTERS)
+    c03.run_pipes(radio, agg)
     agg.flush()
     ck.floor("R10.1", "status property evaluations", n[0], 640)
     ck.floor("R10.1", "available/any evaluations", n[1], 380)
